@@ -19,6 +19,7 @@ mod c07;
 mod c08;
 mod c09;
 mod c10;
+mod c19;
 mod common;
 mod dbg;
 mod c11;
@@ -100,6 +101,7 @@ fn main() {
         "C10" => c10::run(&mut ctx),
         "C11" => c11::run(&mut ctx),
         "C12" => c12::run(&mut ctx),
+        "C19" => c19::run(&mut ctx),
         "C13" => c13::run(&mut ctx),
         "C14" => c14::run(&mut ctx),
         "C15" => c15::run(&mut ctx),
